@@ -38,5 +38,8 @@ ShapeParams(t, cs, sel) == IF Len(cs) = 1 /\ sel % 4 = 3 /\ t % 2 = 1 THEN <<[na
                       ELSE IF Len(cs) = 3 THEN <<[name |-> "T", ty |-> Some(cs[1])]>> ELSE <<>>
 \* `sel` selects among the shapes available for Len(cs) references; callers derive it from the node and its
 \* children so that every shape occurs already in 3-node graphs
-ShapeBody(t, cs, sel) == [path |-> <<"m", Nm(t)>>, params |-> ShapeParams(t, cs, sel), def |-> ShapeDef(t, cs, sel), docs |-> <<"doc " \o Nm(t)>>]
+\* every third node lives in a module and carries a name written as RAW identifiers (r#mod::r#N1): the marker is part
+\* of the segment text and must survive every conversion
+ShapePath(t) == IF t % 3 = 1 THEN <<"r#mod", "r#" \o Nm(t)>> ELSE <<"m", Nm(t)>>
+ShapeBody(t, cs, sel) == [path |-> ShapePath(t), params |-> ShapeParams(t, cs, sel), def |-> ShapeDef(t, cs, sel), docs |-> <<"doc " \o Nm(t)>>]
 =============================================================================
